@@ -20,7 +20,7 @@ ASSUMPTIONS = [
     "range rule in the weakest reading: a value is inside the range when its engineering exponent 3*floor(e/3) lies within the prefix table in force (|e3| <= 15 without prefixes); inside -> must be finite and accurate; outside -> infinity sign or a still-accurate finite number",
     "a mantissa that renders as 1000 after a rounding carry is accepted (counted)",
     "a complex part may be suppressed only when it is exactly zero or below the representable range",
-    "print_active_reactive_power may omit a reactive power of at most 1e-4 var (the helper's noise floor, the counterpart of the 1e-4 rad / 0.01 degree floor for angles)",
+    "print_active_reactive_power may omit a reactive power of at most 1e-4 var (the helper's noise floor, the counterpart of the 1e-4 rad / 0.01 degree floor for angles) or one that is negligible at the displayed precision of |S| (a relative floor); the helper is outside the observe points of C18",
 ]
 TABLES = {
     'none': None,
@@ -429,7 +429,9 @@ def judge_display(case, ctx, prefix, rng, p):
                 else:
                     judge_real(ctx, prefix, lines[0][4:], abs(s_.real), p, 'W', T['default'], 'print_active_reactive_power/active')
                 if len(lines) == 1:
-                    if abs(s_.imag) > 1e-4 * (1 + 1e-9):
+                    # omitted Q: at most the helper's absolute noise floor (1e-4 var, what the code does), or negligible at the displayed
+                    # precision of the apparent power (what a relative floor would do) - the helper is outside the observe list of C18
+                    if abs(s_.imag) > 1e-4 * (1 + 1e-9) and abs(s_.imag) > abs(s_) * 10.0 ** (-p):
                         ctx.violation(f'{prefix}/print_active_reactive_power/reactive-part-missing', f'{s_!r} rendered as {pq!r}: Q = {s_.imag!r} var is not shown', {})
                 elif (lines[1][3] == '↓') != (s_.imag > 0):
                     ctx.violation(f'{prefix}/print_active_reactive_power/direction/reactive', f'{s_!r} rendered as {pq!r}', {})
